@@ -265,8 +265,8 @@ def run(tier):
     else:
         mcs = [("3 blocks, 2 commits, invalid block, truncation", mc_cfg("mc3.cfg", Emit="TRUE"), 3),
                ("3 blocks, universe B", mc_cfg("mc3b.cfg", Universe='"B"', Emit="TRUE"), 3),
-               ("4 blocks, 1 commit, invalid block, uncles, truncation", mc_cfg("mc4.cfg", MaxBlocks="4", MaxCommits="1", MaxBad="1", Emit="TRUE"), 4),
-               ("5 blocks, one fork, 1 commit, truncation", mc_cfg("mc5.cfg", **dict(deep, MaxTrunc="1")), 4),
+               ("4 blocks, 1 commit, uncles, truncation", mc_cfg("mc4.cfg", MaxBlocks="4", MaxCommits="1", MaxBad="0", Emit="TRUE"), 3),
+               ("5 blocks, one fork (reorg depth 2), 1 commit", mc_cfg("mc5.cfg", **deep), 3),
                ("5 blocks, one fork, universe B", mc_cfg("mc5b.cfg", **dict(deep, Universe='"B"')), 3)]
 
     def run_mc(item):
@@ -283,7 +283,7 @@ def run(tier):
         open(cfg, "w").write(txt)
         return bug, V.tlc(PID, "MC_ChainState", cfg, workers=1, timeout=600, coverage=False, tag="bug_" + bug, xmx="2g")
 
-    nrand = 4 if tier == "quick" else 32
+    nrand = 4 if tier == "quick" else 24
     rjobs = []
     for k in range(nrand):
         out = os.path.join(wd, "random_%d.ndjson" % k)
@@ -333,7 +333,7 @@ def run(tier):
         selftests.append((bug, min(hs, key=len)))
     c.set("selftests_rejected", [b for b, _ in selftests])
     # ---------------------------------------------------------------- 2. R: TLC histories on the real node
-    nsample = 72 if tier == "quick" else 480
+    nsample = 72 if tier == "quick" else 300
     jobs, metas = [], []
     allpicks = []
     for ui, (uni, hs, what) in enumerate(emitted):
